@@ -955,9 +955,12 @@ func c14Exhaustion(c *Ctx) {
 	if !isAl || loopHeaderOf(al.Block()) == nil {
 		ok, why = false, "the Target passed to the targeter is reused across calls (header maps and bodies of earlier targets would be shared)"
 	}
+	// the test that tells exhaustion from failure, in either polarity and wherever it stands
+	// (`if err == ErrNoTargets { break } else if err != nil { return nil, err }` in the loop, or
+	// `if err != nil { break }` in the loop and `if err != ErrNoTargets { return nil, err }` after it)
 	var cmp *ssa.BinOp
 	eachInstr(fn, func(i ssa.Instruction) {
-		if bo, isBo := i.(*ssa.BinOp); isBo && bo.Op == token.EQL && strings.TrimPrefix(describeVal(bo.Y), "*") == "ErrNoTargets" {
+		if bo, isBo := i.(*ssa.BinOp); isBo && (bo.Op == token.EQL || bo.Op == token.NEQ) && strings.TrimPrefix(describeVal(bo.Y), "*") == "ErrNoTargets" {
 			cmp = bo
 		}
 	})
@@ -965,30 +968,44 @@ func c14Exhaustion(c *Ctx) {
 		ok, why = false, "the loop does not stop on ErrNoTargets"
 	}
 	if ok {
-		ifi := trueImpliesIf(cmp)
-		if ifi == nil {
+		var ifi *ssa.If
+		for _, r := range refs(cmp) {
+			if x, isIf := r.(*ssa.If); isIf {
+				ifi = x
+			}
+		}
+		var app *ssa.Call
+		eachInstr(fn, func(i ssa.Instruction) {
+			if cl, isCall := i.(*ssa.Call); isCall && callName(&cl.Call) == "builtin:append" {
+				app = cl
+			}
+		})
+		switch {
+		case ifi == nil:
 			ok, why = false, "ErrNoTargets test does not control the loop"
-		} else {
-			if exploreBlock(ifi.Block().Succs[0], nil)[ssa.Instruction(call)] {
+		case app == nil:
+			ok, why = false, "decoded targets are not collected"
+		default:
+			exhausted, failed := ifi.Block().Succs[0], ifi.Block().Succs[1]
+			if cmp.Op == token.NEQ {
+				exhausted, failed = failed, exhausted
+			}
+			if exploreBlock(exhausted, nil)[ssa.Instruction(call)] {
 				ok, why = false, "the loop continues after ErrNoTargets"
 			}
-			// other branch: err != nil → return err; else append
-			var app *ssa.Call
-			eachInstr(fn, func(i ssa.Instruction) {
-				if cl, isCall := i.(*ssa.Call); isCall && callName(&cl.Call) == "builtin:append" {
-					app = cl
+			// the targeter is called again only after the target just decoded was kept
+			if explore(call, false, func(i ssa.Instruction) bool { return i == ssa.Instruction(app) })[ssa.Instruction(call)] {
+				ok, why = false, "a decoded target can be skipped (or the loop goes on after an error)"
+			}
+			// any other error is returned: from the not-exhausted outcome every return before the next append carries an error
+			for _, r := range returnsIn(exploreBlock(failed, func(i ssa.Instruction) bool { return i == ssa.Instruction(app) })) {
+				res := r.(*ssa.Return).Results
+				if len(res) == 2 && isNilConst(res[1]) {
+					ok, why = false, "an error other than ErrNoTargets ends ReadAllTargets without being returned"
 				}
-			})
-			if app == nil {
-				ok, why = false, "decoded targets are not collected"
-			} else {
-				set := exploreBlock(ifi.Block().Succs[1], func(i ssa.Instruction) bool { return i == ssa.Instruction(app) })
-				if set[ssa.Instruction(call)] {
-					ok, why = false, "a decoded target can be skipped"
-				}
-				if el, isEl := sliceElems(app.Call.Args[1]); !isEl || len(el) != 1 || loadedCell(el[0]) != ssa.Value(al) {
-					ok, why = false, "what is appended is not the target just decoded"
-				}
+			}
+			if el, isEl := sliceElems(app.Call.Args[1]); !isEl || len(el) != 1 || loadedCell(el[0]) != ssa.Value(al) {
+				ok, why = false, "what is appended is not the target just decoded"
 			}
 		}
 	}
